@@ -234,6 +234,23 @@ theorem creation_layout (defaults : List Val) (caps : List CapSrc) (fnVal : Val)
 example : createCaptures [.int 10, .int 20] [.val (.int 1), .self, .val (.int 3)] (.str [102])
     = [.int 10, .int 20, .int 1, .str [102], .int 3] := by rfl
 
+/-- **late_bound_spec.** An id that the body reads and that is neither a local nor a capture when
+the function is created (e.g. a function exported later) resolves, when the function runs, to the
+export of that name at that time — for any number of default arguments and captures: the function is
+created with access to the non-locals as soon as one accessed id is not captured; the default values,
+although they share the capture list, play no role. -/
+theorem late_bound_spec (d : FnDef) (rs : Regs) (exports : List (Bind.Name × Val)) (n : Bind.Name)
+    (v : Val) (hn : n ∈ d.lates) (hreg : regOf d n = none) (hv : lookupName n exports = some v) :
+    d.nonLocalAccess = true ∧ readLate d rs exports n = .ok v := by
+  have hpos : 0 < d.lates.length := List.length_pos_of_mem hn
+  have hflag : d.nonLocalAccess = true := by
+    simp only [FnDef.nonLocalAccess, decide_eq_true_eq]
+    omega
+  exact ⟨hflag, by simp [readLate, hreg, hflag, hv]⟩
+
+example : readLate { params := [.id 1], optCount := 1, variadic := false, captures := [], lates := [5] }
+    [.null, .int 1] [(5, .int 50)] 5 = .ok (.int 50) := by rfl
+
 /-- **call_spec.** End to end: a call built by `compile_call` (any form) binds the function to the
 argument list in which packed arguments are replaced by their elements; register 0 of the callee is
 the instance for `m.f(…)` and null otherwise; a piped value is the first argument. -/
